@@ -6,7 +6,7 @@ FILES = ['src/urcu-defer-impl.h', 'include/urcu/defer.h', 'src/urcu.c']
 TRUSTED = ['Coq 8.16.1 kernel; no axioms; no native_compute', 'extraction: ExtrOcamlBasic only; ocaml/defer_driver.ml',
            'harness/seqdiff/defer.c; hooks URCU_VERIF_DEFER_QUEUE_SIZE / URCU_VERIF_DEFER_CALL (guarded, add-only)',
            'modelled: head/tail as unbounded counters; DeferWrap.rep_enq shows that the machine-word ring takes the same steps, and the probe runs that start just below 2^64 compare the counters modulo 2^64; '
-           'grace period = the real synchronize_rcu() of the memb flavor in the probe, abstract in the model; the reclaimer thread futex protocol is covered by the Futex/CrFutex.v skeleton']
+           'grace period = the real synchronize_rcu() of the memb flavor in the probe, abstract in the model; the reclaimer thread futex protocol: Futex/CrFutex.v skeleton (theorem) + the real reclaimer thread under the controlled scheduler (scen_defer.c: exactly-once / order / grace-period / liveness / barrier oracles)']
 SRCS = [REPO + s for s in ('/src/wfcqueue.c', '/src/wfstack.c', '/src/compat_futex.c', '/src/compat_arch.c')]
 
 def oracle_lines(lines):
@@ -23,9 +23,78 @@ def oracle_lines(lines):
     if len(called) != len(queued): return '%d calls queued, %d made after the final barrier' % (len(queued), len(called))
     return None
 
+RPROGS = ['RD1D2WD3WU', 'RD1WD2D3WU/(r)', 'RD1D2D3D4D5D6WU', 'RD1BD2WU/RD5D6WU', 'RD1D2WURD3WU', 'RD1D2BD3U/(q)(r)']
+def reclaimer_oracle(prog, raw):
+    """exactly once, in queue order, after the grace period, by the background reclaimer without further API calls; barrier / unregister return after the calls"""
+    if 'DEADLOCK' in raw: return 'stuck state: a thread waits for ever (a queued call is never made by the background reclaimer, or barrier / unregister never returns)'
+    if 'STEP LIMIT' in raw: return 'live-lock: a thread waits for calls that the background reclaimer never makes (lost wake-up) - step limit reached'
+    if 'ABORT' in raw or 'BUG ' in raw: return 'abnormal run: ' + raw[-300:]
+    ev = [l.split() for l in raw.splitlines() if l and l[0].isdigit()]
+    q = {}; made = {}; owner = {}; qtime = {}; open_ = {}; sections = []; depth = {}; qdone = {}
+    for i, p in enumerate(ev):
+        t, k = p[0], p[1]
+        if k == 'call' and p[2] == 'defer': q.setdefault(t, []).append(p[3]); owner[p[3]] = t; qtime[p[3]] = i
+        elif k == 'call' and p[2] == 'dcall':
+            o = owner.get(p[3])
+            if o is None: return 'call of object %s, which was never queued' % p[3]
+            made.setdefault(o, []).append(p[3])
+            if made[o] != q[o][:len(made[o])]: return 'calls queued by thread %s were %s, the calls made so far are %s (exactly once, in order)' % (o, q[o], made[o])
+            for (tr, a, b) in sections + [(tr, a, None) for tr, a in open_.items()]:
+                if a < qtime[p[3]] and (b is None or b > i): return 'call of object %s (queued at event %d) made at event %d while the read-side section of thread %s begun at event %d is still open' % (p[3], qtime[p[3]], i, tr, a)
+        elif k == 'ret' and p[2] == 'lock':
+            depth[t] = depth.get(t, 0) + 1
+            if depth[t] == 1: open_[t] = i
+        elif k == 'call' and p[2] == 'unlock':
+            if depth.get(t, 0) == 1 and t in open_: sections.append((t, open_.pop(t), i))
+            depth[t] = depth.get(t, 0) - 1
+        elif k == 'ret' and p[2] == 'defer': qdone[t] = qdone.get(t, 0) + 1
+        elif k == 'call' and p[2] == 'dbarrier': p.append(dict(qdone))        # the defer_rcu() calls that had returned when the barrier was called
+        elif k == 'ret' and p[2] in ('dbarrier', 'dunreg'):
+            if p[2] == 'dunreg':
+                if len(made.get(t, [])) != len(q.get(t, [])): return 'rcu_defer_unregister_thread of thread %s returned with %d of its %d calls made' % (t, len(made.get(t, [])), len(q.get(t, [])))
+            else:
+                c = next((x for x in reversed(ev[:i]) if x[0] == t and x[1] == 'call' and x[2] == 'dbarrier'), None)
+                snap = c[-1] if c and isinstance(c[-1], dict) else {}
+                for o, n in snap.items():
+                    if len(made.get(o, [])) < n: return 'rcu_defer_barrier of thread %s returned while only %d of the %d calls thread %s had queued before it were made' % (t, len(made.get(o, [])), n, o)
+    for o, l in q.items():
+        if made.get(o, []) != l: return 'at the end of the run thread %s queued %s, calls made %s' % (o, l, made.get(o, []))
+    return None
+
+def run_reclaimer(ctx):
+    """the real reclaimer thread of urcu-defer-impl.h under the controlled scheduler (ring of 8 slots)"""
+    import gp_common as G
+    impl = build_scenario(ctx, 'scen_defer', 'scen_defer.c', extra_src=G.SRCS, defs=G.DEFS + ['-DURCU_VERIF_DEFER_QUEUE_SIZE=8'])
+    if not impl: return
+    cases = []
+    for prog in RPROGS[:4 if ctx.quick() else len(RPROGS)]:
+        th = [str(i) for i in range(prog.count('/') + 1)]; rec = str(len(th)); recf = rec + chr(ord('a') + len(th))
+        for v in th[:1]:
+            vf = v + chr(ord('a') + int(v))
+            for k in range(0, 90 if ctx.quick() else 200, 2 if ctx.quick() else 1):
+                # the queuing thread frozen after k steps; the reclaimer runs until it sleeps; then everybody goes on
+                cases.append((prog, vf * k + recf * 120))
+                if k % 6 == 0: cases.append((prog, vf * k + recf * 25 + vf * 6 + recf * 120))
+    n = len(cases) + (150 if ctx.quick() else 3000)
+    while len(cases) < n:
+        prog = ctx.rng.choice(RPROGS); th = [str(i) for i in range(prog.count('/') + 2)]
+        cases.append((prog, bursty(ctx.rng, th, lo=60, hi=600, flush=ctx.rng.choice([0.0, 0.1, 0.4]), means=(1, 3, 10, 30), spurious=ctx.rng.choice([0.0, 0.03]))))
+    tail = ''.join(chr(ord('a') + i) + str(i) for i in range(6)) * 700
+    rs = run_many([[impl, p, s + tail] for p, s in cases], timeout=30)
+    nor = 0; slept = 0
+    for (p, s), (rc, raw) in zip(cases, rs):
+        o = reclaimer_oracle(p, raw) if 'TIMEOUT' not in raw else 'abnormal run: timeout'
+        if o:
+            nor += 1
+            if nor <= 3: ctx.fail('oracle', 'defer_rcu with the background reclaimer (scen_defer)', o, concrete={'scenario': 'scen_defer', 'prog': p, 'schedule': s + tail, 'verdict': o})
+        if 'futex_wait dfutex' in raw and '-> sleep' in raw: slept += 1
+    ctx.cov['evaluations'] += len(cases); ctx.cov['distinct_nontrivial'] += slept; ctx.cov['oracle_violations'] = ctx.cov.get('oracle_violations', 0) + nor
+    ctx.cov['input_distribution']['scen_defer'] = {'cases': len(cases), 'runs_where_the_reclaimer_slept': slept, 'programs': RPROGS}
+
 def run(ctx):
     ctx.cov['source_hash'] = source_hash(FILES)
     prove(ctx)
+    run_reclaimer(ctx)
     model = build_model_driver(ctx, 'defer', 'ExtractDefer.v', 'defer_driver.ml')
     sizes = [('16', 16), ('8', 8), ('default', None)] if ctx.quick() else [('16', 16), ('8', 8), ('4', 4), ('64', 64), ('default', None)]
     for tag, sz in sizes:
